@@ -9,12 +9,13 @@
      deep1-3 depth 2: one slot of the outer element holds a (narrow) structural element,
              alone or followed by a closing run
      pairs   two or three narrow top-level elements / runs in sequence
+     symbols every character of the symbol / operator / accent tables as text, operand, attribute
    SpecBuild: a bottom-up tree builder for `tlc -simulate` (deeper, random trees): stk is a stack of
              contents; every content of the stack is checked as a tree of its own.           *)
 EXTENDS Omml
 
 CONSTANTS Profile,          \* "quick" | "thorough"
-          Part,             \* "wide" | "pairs" | "deep1" | "deep2" | "deep3" | "all": part of the universe
+          Part,             \* "wide" | "pairs" | "deep1" | "deep2" | "deep3" | "symbols" | "all": part of the universe
           MaxStack, MaxLen  \* SpecBuild bounds
 
 VARIABLES tree, stk
@@ -103,7 +104,17 @@ Pairs == IF ~Is({"pairs"}) THEN {} ELSE {<<a, b>> : a \in PairSet, b \in PairSet
 Triples == IF Is({"pairs"})
            THEN {<<a, b, c>> : a \in Rads, b \in Rads \cup {R(<<"a", ")">>)}, c \in Rads} ELSE {}
 
-Universe ==
+\* every character of the symbol table (and of the operator / accent tables) in a run, next to a
+\* letter, as operand and as attribute value
+SymChars == DOMAIN Sym \cup DOMAIN NaryOps \cup DOMAIN AccentOps
+Symbols == IF ~Is({"symbols"}) THEN {} ELSE
+    {<<R(<<a>>)>> : a \in SymChars} \cup {<<R(<<a, "a", a>>)>> : a \in SymChars}
+    \cup {<<[k |-> "f", num |-> << <<R(<<a>>)>> >>, den |-> << <<R(<<"b", a>>)>> >>]>> : a \in SymChars}
+    \cup {<<[k |-> "nary", chr |-> Val(a), sub |-> << <<R(<<a>>)>> >>, sup |-> <<>>, e |-> << <<R(<<"x">>)>> >>]>> : a \in SymChars}
+    \cup {<<[k |-> "acc", chr |-> Val(a), e |-> << <<R(<<a>>)>> >>]>> : a \in SymChars}
+    \cup {<<[k |-> "d", beg |-> Val(a), end |-> Val(a), es |-> << <<R(<<"x">>)>> >>]>> : a \in SymChars}
+
+Universe == Symbols \cup
     (IF Is({"wide"}) THEN {<<n>> \o c : n \in Wide, c \in Closing}
                           \cup {<<R(t)>> : t \in TextsWide} \cup {<<>>} ELSE {})
     \cup {<<n>> \o c : n \in Deep1 \cup Deep2 \cup Deep3, c \in Closing2}
